@@ -12,7 +12,9 @@ R6 the derived helpers pass (relationship, class) pairs of the containment schem
 import ast
 
 from ..core import AnalysisError, norm, loc, walk_no_nested, attr_chain, call_name
+from ..normalize import builders, canon, conjuncts, ctext, local_env, expand
 from .. import nxgraph as nxg
+from .. import flow
 from ..schema import containment_schema
 
 LIVE_VIEW_METHODS = {'edges', 'nodes', 'neighbors', 'adjacency', 'items', 'keys', 'values', 'successors', 'predecessors'}
@@ -44,30 +46,50 @@ def run(prog, rep):
 
     # ---- R1 ----
     for cls in (nxpg, mixin):
-        for name, fn in cls.methods.items():
-            for loop in [n for n in walk_no_nested(fn) if isinstance(n, ast.For) and isinstance(n.target, ast.Name)]:
-                var = loop.target.id
-                for st in loop.body:
-                    if isinstance(st, ast.If) and len(st.body) == 1 and isinstance(st.body[0], ast.Expr) and \
-                            isinstance(st.body[0].value, ast.Call) and call_name(st.body[0].value) == 'append':
-                        ap = st.body[0].value
-                        lst = ast.unparse(ap.func.value)
-                        # is the list later used as the argument of a difference() ?
-                        used = any(isinstance(c, ast.Call) and call_name(c) == 'difference' and c.args and ast.unparse(c.args[0]) == lst
-                                   for c in ast.walk(fn))
-                        if not used:
-                            continue
-                        fq = f'{cls.name}.{name}'
-                        arg = ast.unparse(ap.args[0])
-                        rep.instance('R1', f'{fq}: for {var} in {norm(loop.iter, 40)}: ... {lst}.append({arg})')
-                        tested = {x.id for x in ast.walk(st.test) if isinstance(x, ast.Name)}
-                        if arg != var:
-                            rep.violation('R1', loc(cls.module, ap), fq, f'for {var} in {norm(loop.iter, 40)}: {lst}.append({arg})',
-                                          f'the drop list of the filter over `{var}` is fed with `{arg}`: elements that fail the '
-                                          f'test are never removed, so the filter (here: the relationship restriction) is ineffective')
-                        elif var not in tested:
-                            rep.violation('R1', loc(cls.module, st), fq, f'test does not mention {var}: {norm(st.test, 80)}',
-                                          'the filter test does not depend on the element being filtered')
+        for name, fn0 in cls.methods.items():
+            fn = nxg.method(prog, cls, fn0)
+            fq = f'{cls.name}.{name}'
+            for idx, (dname, b, use) in enumerate(drop_filters(fn)):
+                if not b.gens:
+                    continue
+                tgt, it = b.gens[-1]
+                if not isinstance(tgt, ast.Name):
+                    continue
+                var = tgt.id
+                arg = ast.unparse(b.elt)
+                rep.instance('R1', f'{fq}: for {var} in {norm(it, 40)}: ... {dname} += {arg}; used by {norm(use, 60)}')
+                tested = {x.id for c_ in b.conds for x in ast.walk(c_) if isinstance(x, ast.Name)}
+                outer = [ast.unparse(t_) for t_, _ in b.gens[:-1]]
+                if arg != var:
+                    what = 'the variable of the enclosing loop' if arg in outer else 'something else'
+                    rep.violation('R1', loc(cls.module, b.node), fq, f'drop-list filter #{idx + 1}: the element put on the drop list is not the loop variable but {what}',
+                                  f'the drop list of the filter over `{var}` is fed with `{arg}`: elements that fail the '
+                                  f'test are never removed, so the filter (here: the relationship restriction) is ineffective')
+                elif var not in tested:
+                    rep.violation('R1', loc(cls.module, b.node), fq, f'drop-list filter #{idx + 1}: test does not mention the loop variable',
+                                  'the filter test does not depend on the element being filtered')
+                # the drop list starts empty for every run of the filter loop
+                if isinstance(b.node, ast.Call):
+                    loop = b.node
+                    while loop is not None and not (isinstance(loop, ast.For) and loop.target is tgt):
+                        loop = getattr(loop, '_parent', None)
+                    owner = getattr(loop, '_parent', None) if loop is not None else None
+                    block = None
+                    for field in ('body', 'orelse', 'finalbody'):
+                        blk = getattr(owner, field, None)
+                        if isinstance(blk, list) and any(x is loop for x in blk):
+                            block = blk
+                    if block is not None:
+                        pos = [i for i, x in enumerate(block) if x is loop][0]
+                        inits = [x for x in block[:pos] if isinstance(x, ast.Assign) and any(isinstance(t_, ast.Name) and t_.id == dname for t_ in x.targets)
+                                 and _is_empty_collection(x.value)]
+                        elsewhere = [x for x in walk_no_nested(fn) if isinstance(x, ast.Assign) and any(isinstance(t_, ast.Name) and t_.id == dname for t_ in x.targets)]
+                        in_outer_loop = any(isinstance(pp, (ast.For, ast.While)) for pp in _ancestors(loop, fn))
+                        if not inits and elsewhere and in_outer_loop:
+                            rep.violation('R1', loc(cls.module, loop), fq, f'drop-list filter #{idx + 1}: the drop list is not emptied before the filter loop',
+                                          f'`{dname}` is not reset where the filter over `{var}` starts although that filter runs once per iteration of an '
+                                          f'enclosing loop: entries left over from earlier iterations (or from an earlier filter that used the same list) '
+                                          f'are subtracted as well, so legitimate elements disappear from the result')
 
     # ---- R2 ----
     for m, cls, fn in prog.all_functions():
@@ -114,21 +136,21 @@ def run(prog, rep):
         if eg is None:
             raise AnalysisError(f'{st.name}.extract_graph vanished')
         fq = f'{st.name}.extract_graph'
+        eg = nxg.method(prog, st, eg)
         for r in [n for n in walk_no_nested(eg) if isinstance(n, ast.Return) and n.value is not None]:
             v = r.value
             if isinstance(v, ast.Constant) and v.value is None:
                 continue
-            src = v
+            srcs = [v]
             if isinstance(v, ast.Name):
-                # resolve the local's definition
-                defs = [n.value for n in walk_no_nested(eg) if isinstance(n, ast.Assign) and
-                        any(isinstance(t, ast.Name) and t.id == v.id for t in n.targets)]
-                src = defs[-1] if defs else v
-            fresh = isinstance(src, ast.Call) and (call_name(src) in ('copy', 'deepcopy', 'from_dict_of_dicts', 'Graph', 'subgraph_copy')
-                                                    or (call_name(src) == 'copy' and True))
-            if isinstance(src, ast.Call) and call_name(src) == 'subgraph':
-                fresh = False
-            rep.instance('R3', f'{fq}: returns {norm(v)} = {norm(src, 60)}')
+                # resolve the local's definitions (every one of them must be a fresh object)
+                srcs = [d for d in flow.reaching_values(eg, v.id) if not (isinstance(d, ast.Constant) and d.value is None)] or [v]
+
+            def is_fresh(src):
+                return isinstance(src, ast.Call) and call_name(src) in ('copy', 'deepcopy', 'from_dict_of_dicts', 'Graph', 'subgraph_copy')
+            fresh = all(is_fresh(x) for x in srcs)
+            src = [x for x in srcs if not is_fresh(x)][0] if not fresh else srcs[0]
+            rep.instance('R3', f'{fq}: returns {norm(v)} = {[norm(x, 60) for x in srcs]}')
             if not fresh:
                 rep.violation('R3', loc(st.module, r), fq, f'returns {norm(src, 80)}',
                               'extract_graph hands out the stored graph object itself instead of a copy: queries that prune '
@@ -210,19 +232,49 @@ def run(prog, rep):
     def has_name_arg(call, name):
         return any(isinstance(a, ast.Name) and a.id == name for a in list(call.args) + [k.value for k in call.keywords])
 
-    def neq_against(fn, name):
+    def is_class_label(e):
+        for x in ast.walk(e):
+            if isinstance(x, ast.Attribute):
+                try:
+                    if prog.const_eval(x, nxpg.module, nxpg) == 'Class':
+                        return True
+                except Exception:
+                    pass
+            if isinstance(x, ast.Constant) and x.value == 'Class':
+                return True
+        return False
+
+    def neq_against(fn, name, ops=(ast.NotEq,)):
         """Compare nodes `<class-of-element> != <name>` (either operand order)"""
         out = []
         for n in ast.walk(fn):
-            if isinstance(n, ast.Compare) and len(n.ops) == 1 and isinstance(n.ops[0], ast.NotEq):
+            if isinstance(n, ast.Compare) and len(n.ops) == 1 and isinstance(n.ops[0], ops):
                 l, r = n.left, n.comparators[0]
-                if isinstance(r, ast.Name) and r.id == name and 'NETWORKX_LABEL' in ast.unparse(l):
+                if isinstance(r, ast.Name) and r.id == name and is_class_label(l):
                     out.append((n, l))
-                elif isinstance(l, ast.Name) and l.id == name and 'NETWORKX_LABEL' in ast.unparse(r):
+                elif isinstance(l, ast.Name) and l.id == name and is_class_label(r):
                     out.append((n, r))
         return out
 
-    fn1 = nxpg.methods['get_first_neighbor']
+    def class_filter_ok(fn, view, param):
+        """some collection builder of fn drops (or keeps) elements by comparing the Class of graph.<view>[element] with param"""
+        drops = {d for d, _, _ in drop_filters(fn)}
+        for cname, bl in builders(fn).items():
+            for b in bl:
+                if not b.gens or not isinstance(b.gens[-1][0], ast.Name):
+                    continue
+                var = b.gens[-1][0].id
+                want = ast.NotEq if cname in drops else ast.Eq
+                for cond in b.conds:
+                    for cj in conjuncts(canon(cond)):
+                        for cmp_node, elem in neq_against(cj, param, (want,)):
+                            subs = [x for x in ast.walk(elem) if isinstance(x, ast.Subscript) and isinstance(x.value, ast.Attribute) and x.value.attr == view]
+                            if subs and any(isinstance(y, ast.Name) and y.id == var for y in ast.walk(subs[0].slice)) and \
+                                    isinstance(b.elt, ast.Name) and b.elt.id == var:
+                                return True
+        return False
+
+    fn1 = nxg.method(prog, nxpg, nxpg.methods['get_first_neighbor'])
     via_calls = [c for c in calls_named(fn1, '_get_first_neighbors_via') if has_name_arg(c, 'rel')]
     lab_calls = [c for c in calls_named(fn1, '_filter_nodes_by_label') if has_name_arg(c, 'node_label')]
     rep.instance('R5', f'get_first_neighbor: relationship filter calls {len(via_calls)}, class filter calls {len(lab_calls)}')
@@ -232,29 +284,20 @@ def run(prog, rep):
     via = mixin.methods['_get_first_neighbors_via']
     fl = mixin.methods['_filter_nodes_by_label']
     for fn, view, param in ((via, 'edges', 'rel'), (fl, 'nodes', 'node_label')):
-        cmps = neq_against(fn, param)
-        ok = False
-        for cmp_node, elem in cmps:
-            loop = cmp_node
-            while loop is not None and not isinstance(loop, ast.For):
-                loop = getattr(loop, '_parent', None)
-            if loop is None or not isinstance(loop.target, ast.Name):
-                continue
-            subs = [x for x in ast.walk(elem) if isinstance(x, ast.Subscript) and isinstance(x.value, ast.Attribute) and x.value.attr == view]
-            if subs and any(isinstance(y, ast.Name) and y.id == loop.target.id for y in ast.walk(subs[0].slice)):
-                ok = True
+        fn = nxg.method(prog, mixin, fn)
+        ok = class_filter_ok(fn, view, param)
         rep.instance('R5', f'NetworkXMixin.{fn.name}: Class of graph.{view}[..] compared with {param}: {ok}')
         if not ok:
             rep.violation('R5', loc(mixin.module, fn), f'NetworkXMixin.{fn.name}', f'no `Class of {view}[element] != {param}` drop test',
                           f'elements whose Class differs from `{param}` must be dropped')
-    fn2 = nxpg.methods['get_first_and_second_neighbor']
+    fn2 = nxg.method(prog, nxpg, nxpg.methods['get_first_and_second_neighbor'])
     checks = [
         ('first-hop relationship filter', bool(neq_against(fn2, 'rel1'))),
         ('first-hop class filter', any(has_name_arg(c, 'node1_label') for c in calls_named(fn2, '_filter_nodes_by_label'))),
         ('second-hop relationship filter', bool(neq_against(fn2, 'rel2'))),
         ('second-hop class filter', any(has_name_arg(c, 'node2_label') for c in calls_named(fn2, '_filter_nodes_by_label'))),
         ('exclusion of the start node', any(has_name_arg(c, 'real_node') for c in calls_named(fn2, 'remove') + calls_named(fn2, 'discard'))
-         or any(isinstance(n, ast.Compare) and isinstance(n.ops[0], ast.NotEq) and 'real_node' in ast.unparse(n) and 'NETWORKX_LABEL' not in ast.unparse(n)
+         or any(isinstance(n, ast.Compare) and isinstance(n.ops[0], ast.NotEq) and 'real_node' in ast.unparse(n) and not is_class_label(n)
                 for n in ast.walk(fn2))),
     ]
     rep.instance('R5', f'get_first_and_second_neighbor: {[(w, ok) for w, ok in checks]}')
@@ -325,6 +368,48 @@ def run(prog, rep):
                     if not schema.has_pair(rel, label):
                         rep.violation('R6', loc(apg.module, c), f'ABCPropertyGraph.{name}', f'({rel}, {label})',
                                       f'no element is ever attached through ({rel}, {label}) by the model writers: the helper can never find anything')
+
+
+def _is_empty_collection(v):
+    if isinstance(v, (ast.List, ast.Set, ast.Tuple)) and not v.elts:
+        return True
+    return isinstance(v, ast.Call) and isinstance(v.func, ast.Name) and v.func.id in ('list', 'set') and not v.args
+
+
+def _ancestors(node, fn):
+    p = getattr(node, '_parent', None)
+    while p is not None and p is not fn:
+        yield p
+        p = getattr(p, '_parent', None)
+
+
+def drop_filters(fn):
+    """[(drop collection name, Builder, use node)] for every collection that is subtracted from another one
+    (S.difference(D), S.difference_update(D), S - set(D), `x not in D` inside a comprehension)."""
+    used = {}
+    for c in ast.walk(fn):
+        if isinstance(c, ast.Call) and call_name(c) in ('difference', 'difference_update') and c.args:
+            a0 = c.args[0]
+            if isinstance(a0, ast.Call) and isinstance(a0.func, ast.Name) and a0.func.id in ('set', 'list') and a0.args:
+                a0 = a0.args[0]
+            if isinstance(a0, ast.Name):
+                used.setdefault(a0.id, c)
+        if isinstance(c, ast.BinOp) and isinstance(c.op, ast.Sub):
+            r = c.right
+            if isinstance(r, ast.Call) and isinstance(r.func, ast.Name) and r.func.id in ('set', 'list') and r.args:
+                r = r.args[0]
+            if isinstance(r, ast.Name) and isinstance(c.left, (ast.Name, ast.Call)):
+                used.setdefault(r.id, c)
+        if isinstance(c, ast.Compare) and len(c.ops) == 1 and isinstance(c.ops[0], ast.NotIn) and isinstance(c.comparators[0], ast.Name) \
+                and isinstance(getattr(c, '_parent', None), ast.comprehension):
+            used.setdefault(c.comparators[0].id, c)
+    blds = builders(fn)
+    out = []
+    for dname, use in used.items():
+        for b in blds.get(dname, []):
+            out.append((dname, b, use))
+    out.sort(key=lambda t: (getattr(t[1].node, 'lineno', 0), getattr(t[1].node, 'col_offset', 0)))
+    return out
 
 
 def kwarg_value(call, name):
